@@ -509,6 +509,19 @@ def eps(text):
             elif op == 'rlineto':
                 y, x = stack.pop(), stack.pop()
                 d['ops'].append({'op': 'l', 'a': um(x), 'b': um(y)})
+            elif op == 'lineto':            # absolute line: the pen machine knows L
+                y, x = stack.pop(), stack.pop()
+                d['ops'].append({'op': 'L', 'a': um(x), 'b': um(y)})
+            elif op == 'setgray':
+                g_ = stack.pop()
+                pending_rgb = [int(round(float(g_) * 255 * 1000))] * 3
+                if seen_path or d['bg_rgb'] or (i < len(toks) and toks[i] != 'clippath'):
+                    d['stroke_rgb'] = pending_rgb
+            elif op == 'setlinewidth':      # the default width 1 is what the property needs; any other width changes the covered area
+                if um(stack.pop()) != 1000000:
+                    d['unknown'] += 1
+            elif op in ('gsave', 'grestore', 'showpage'):
+                pass
             elif op == 'stroke':
                 d['stroked'] = True
             else:
